@@ -43,5 +43,8 @@ def load_chi(poison=False, refsim=True):
     if poison or os.environ.get('CHI_VERIF_POISON') == '1':
         from harness import poison as _poison
         _poison.install(chi)
+    if os.environ.get('CHI_VERIF_ARGDUMP'):
+        from harness import argdump as _argdump
+        _argdump.install(chi)
     _chi = chi
     return chi
